@@ -68,6 +68,13 @@ PIPES = {
     # an axis shared by two zipped ROOT inputs that sorts before another independent axis of another size
     "zip-then-outer": {"roots": {"x": ["i"], "y": ["i"], "q": ["j"]}, "sizes": {**S3, "i": 2, "j": 3}, "axes": ["i", "j"], "funcs": [
         _f("f", ["x", "y"], {"x": ["i"], "y": ["i"]}, ["i"], [], ["a"]), _f("g", ["a", "q"], {"a": ["i"], "q": ["j"]}, ["i", "j"], [], ["b"])]},
+    # a function WITHOUT MapSpec whose output a mapped function takes whole (it does not exist yet when learners are created)
+    "unmapped-feeds-mapped": {"roots": {"x": ["i"], "n": []}, "sizes": S3, "axes": ["i"], "funcs": [
+        _f("h", ["n"], None, [], [], ["c"]), _f("g", ["x", "c"], {"x": ["i"]}, ["i"], [], ["y"])]},
+    # one input reduces axis j with ':' while ANOTHER input of the same function maps over j (j is in the output, and still reduced)
+    "reduce-while-sibling-maps-axis": {"roots": {"x": ["i"], "q": ["j"]}, "sizes": S3, "axes": ["i"], "reduced": ["j"], "funcs": [
+        _f("f", ["x", "q"], {"x": ["i"], "q": ["j"]}, ["i", "j"], [], ["e"]),
+        _f("g", ["e", "q"], {"e": ["i", None], "q": ["j"]}, ["i", "j"], [], ["p"])]},
     "independent-single": {"roots": {"x": ["i"], "n": []}, "sizes": S3, "axes": ["i"], "funcs": [
         _f("f", ["x"], {"x": ["i"]}, ["i"], [], ["y"]), _f("h", ["n"], None, [], [], ["m"])]},
 }
